@@ -1,5 +1,6 @@
 """C01 Kinematics agree with MuJoCo C."""
 from __future__ import annotations
+import re
 import numpy as np
 from .common import Acc, intercept, result, search_result
 
@@ -13,10 +14,149 @@ LEVEL_TEXT = ("Theorems about the kinematics kernels regenerated from smooth.py 
               "update (free/ball/slide/hinge, several joints per body, mocap); by induction along the chain, for every chain length and joint mix, the last write to xpos/xquat of each body equals "
               "the sequential recursion (`kinematics_branch_eq_seq`); branch threads sharing an ancestor write identical values; every written xquat is unit and xmat is a proper rotation; geom/site "
               "local-to-global and inertial frames = mj_local2Global; level-by-level subtree-com accumulation in ANY order equals the sequential backward pass (commutative-semigroup lemma); "
-              "cdof = mju_dofCom, cinert = mju_inertCom. Real kinematics()/com_pos() are compared with mujoco.mj_kinematics/mj_comPos on random trees.")
-LEVEL_NOTE = ("C01_partial: cameras/lights tracking modes, tendon/flex lengths (wrap iterations) are sampled only. Divergences documented in C01Witness: zero quaternion, massless subtree com, "
+              "cdof = mju_dofCom, cinert = mju_inertCom. Real kinematics()/com_pos()/camlight()/flex()/tendon() are compared with mujoco.mj_kinematics/mj_comPos/mj_camlight/mj_flex/mj_tendon "
+              "on random trees with one state per world: cameras and lights in every tracking mode, fixed tendons, spatial tendons with several pulleys of different divisors, sphere/cylinder "
+              "wrapping with side sites outside and inside the geom (lengths, moments, wrap points), flex vertices and edge lengths.")
+LEVEL_NOTE = ("C01_partial: cameras/lights tracking modes, tendon/flex lengths (wrap iterations) and the host-side tables put_model derives for them (e.g. wrap_pulley_scale) have no theorem; "
+              "they are decided by the oracle only (every mode / pulley layout / wrap kind is forced in rotation over the case number, see 'hits'). Tendons whose MuJoCo reference length is "
+              "itself discontinuous at the state (moves > 1e-3 under 1e-5 perturbations) are counted, not compared; wrap_inside's default point in float32 is counted only. Divergences documented in C01Witness: zero quaternion, massless subtree com, "
               "static geoms frozen at make_data. Trusted: Lean kernel + Mathlib, tier-B translator (interception), Spec/Kinematics.lean as a transcription of MuJoCo's routines.")
-ASSUMPTIONS = ["regular quaternions (norm >= mjMINVAL); tolerance 2e-5*(1+|x|)"]
+ASSUMPTIONS = ["regular quaternions (norm >= mjMINVAL); tolerance 5e-5*(1+|x|) (tendon moments and wrap points around geoms: 2e-4*(1+|x|))"]
+
+
+_MODES = ["fixed", "track", "trackcom", "targetbody", "targetbodycom"]
+_DIVS = [2.0, 4.0, 3.0, 1.5, 0.5, 5.0]
+
+
+def _f(x):
+  return " ".join(f"{float(v):.5g}" for v in np.atleast_1d(x))
+
+
+def _decorate(rng, c, wb, sp, acc):
+  """adds to a random forest: a tendon site in every body, wrap geoms (sphere/cylinder, optional side site outside or inside),
+  cameras and lights in every tracking mode (rotation over the case number), spatial tendons made of branches separated by
+  pulleys (rotation: several pulleys with pairwise different divisors / wrap geoms / leading pulley / random), a fixed tendon and
+  (every 3rd case) a flex over the bodies.  Returns (worldbody, extra sections, feature list)."""
+  nb = len(sp.bodies)
+  feats = []
+  sites = ["wa0", "wa1", "wa2"]
+  wgeoms = []  # (geom, sidesite or None)
+  cam_mode = _MODES[c % 5]
+  light_mode = _MODES[(c // 5 + c + 2) % 5]
+  cam_body, light_body = int(rng.integers(nb)), int(rng.integers(nb))
+  tgt_c, tgt_l = int(rng.integers(nb)), int(rng.integers(nb))
+
+  def inject(mo):
+    b = int(mo.group(2))
+    out = mo.group(1) + f'<site name="t{b}" pos="{_f(rng.uniform(-0.2, 0.2, size=3))}"/>'
+    sites.append(f"t{b}")
+    if rng.random() < 0.5:
+      typ = "sphere" if rng.random() < 0.5 else "cylinder"
+      r = rng.uniform(0.03, 0.09)
+      gp = rng.uniform(-0.15, 0.15, size=3)
+      q = rng.normal(size=4); q /= np.linalg.norm(q)
+      size = _f([r]) if typ == "sphere" else _f([r, rng.uniform(0.05, 0.2)])
+      out += f'<geom name="w{b}" type="{typ}" size="{size}" pos="{_f(gp)}" quat="{_f(q)}" contype="0" conaffinity="0"/>'
+      side = None
+      u = rng.random()
+      if u < 0.6:
+        dr = rng.normal(size=3); dr /= np.linalg.norm(dr)
+        k = 2.0 if u < 0.45 else 0.4  # outside / inside the geom
+        out += f'<site name="ws{b}" pos="{_f(gp + dr * r * k)}"/>'
+        side = f"ws{b}"
+        feats.append("sidesite-outside" if k > 1 else "sidesite-inside")
+      wgeoms.append((f"w{b}", side, typ))
+    if b == cam_body:
+      q = rng.normal(size=4); q /= np.linalg.norm(q)
+      tg = f' target="b{tgt_c}"' if cam_mode.startswith("target") else ""
+      out += f'<camera name="cam1" mode="{cam_mode}"{tg} pos="{_f(rng.uniform(-0.3, 0.3, size=3))}" quat="{_f(q)}"/>'
+    if b == light_body:
+      tg = f' target="b{tgt_l}"' if light_mode.startswith("target") else ""
+      out += f'<light name="l1" mode="{light_mode}"{tg} pos="{_f(rng.uniform(-0.3, 0.3, size=3))}" dir="{_f(rng.normal(size=3))}"/>'
+    return out
+
+  wb = re.sub(r'(<body name="b(\d+)"[^>]*>)', inject, wb)
+  feats += [f"cam-{cam_mode}", f"light-{light_mode}"]
+  for k in range(3):
+    wb += f'\n    <site name="wa{k}" pos="{_f(rng.uniform(-1, 1, size=3) + [0, 0, 1.5])}"/>'
+  # a wrap geom fixed in the world (a static geom: its pose is computed once, at put_data)
+  wb += f'\n    <geom name="wwg" type="{"sphere" if c % 2 else "cylinder"}" size=".06 .15" pos="{_f(rng.uniform(-0.5, 0.5, size=3) + [0, 0, 1])}" contype="0" conaffinity="0"/>'
+  wgeoms.append(("wwg", None, "sphere" if c % 2 else "cylinder"))
+
+  def pick_site(prev):
+    for _ in range(20):
+      s = sites[int(rng.integers(len(sites)))]
+      if s != prev:
+        return s
+    return s
+
+  def spatial(name, kind):
+    """kind 0: >= 2 pulleys with pairwise different divisors, sites only; 1: pulleys + wrap geoms; 2: leading pulley, one geom
+    with side site if there is one; 3: random"""
+    if kind == 0:
+      nbranch, lead, pg, distinct = int(rng.integers(3, 5)), bool(rng.integers(2)), 0.0, True
+    elif kind == 1:
+      nbranch, lead, pg, distinct = int(rng.integers(2, 4)), bool(rng.integers(2)), 0.6, True
+    elif kind == 2:
+      nbranch, lead, pg, distinct = 1, True, 1.0, True
+    else:
+      nbranch, lead, pg, distinct = int(rng.integers(1, 4)), bool(rng.integers(2)), 0.3, False
+    divs = list(rng.permutation(_DIVS)) if distinct else [float(rng.choice([1.0, 2.0, 2.0, 3.0])) for _ in range(6)]
+    el, npul, ngeom, nside = [], 0, 0, 0
+    for k in range(nbranch):
+      if k > 0 or lead:
+        el.append(f'<pulley divisor="{divs[npul]:g}"/>'); npul += 1
+      s = pick_site(None)
+      el.append(f'<site site="{s}"/>')
+      for _ in range(int(rng.integers(1, 4))):
+        if wgeoms and rng.random() < pg:
+          cand = [g for g in wgeoms if g[1]] if (kind == 2 and any(g[1] for g in wgeoms)) else wgeoms
+          g, side, _t = cand[int(rng.integers(len(cand)))]
+          if side and (kind == 2 or rng.random() < 0.7):
+            el.append(f'<geom geom="{g}" sidesite="{side}"/>'); nside += 1
+          else:
+            el.append(f'<geom geom="{g}"/>')
+          ngeom += 1
+        s = pick_site(s)
+        el.append(f'<site site="{s}"/>')
+    return f'    <spatial name="{name}">' + "".join(el) + "</spatial>", npul, ngeom, nside, distinct
+
+  tend = []
+  kinds = [c % 4] + [int(rng.integers(4)) for _ in range(int(rng.integers(0, 3)))]
+  for k, kind in enumerate(kinds):
+    x, npul, ngeom, nside, distinct = spatial(f"sp{k}", kind)
+    tend.append(x)
+    feats.append(f"spatial-npulley={min(npul, 3)}")
+    if npul >= 2 and distinct:
+      feats.append("spatial-several-pulleys-different-divisors")
+    if ngeom:
+      feats.append("spatial-wrap-geom")
+    if nside:
+      feats.append("spatial-sidesite")
+  scal = [j for j in sp.joints if sp.joint_types[j] in ("hinge", "slide")]
+  if scal:
+    js = [scal[i] for i in rng.permutation(len(scal))[: int(rng.integers(1, 4))]]
+    tend.append('    <fixed name="fx">' + "".join(f'<joint joint="{j}" coef="{rng.normal():.4g}"/>' for j in js) + "</fixed>")
+    feats.append("fixed-tendon")
+  extra = "  <tendon>\n" + "\n".join(tend) + "\n  </tendon>"
+  if c % 3 == 2 and nb >= 2:
+    # a flex straight over the forest's bodies: vertices at random offsets in the body frames, a chain of edges (dim 1) or a
+    # triangle fan (dim 2, needs >= 3 bodies)
+    dim = 2 if (nb >= 3 and c % 2) else 1
+    bl = [f"b{b}" for b in rng.permutation(nb)[: max(dim + 1, int(rng.integers(2, nb + 1)))]]
+    vt = _f(rng.uniform(-0.2, 0.2, size=3 * len(bl)))
+    elem = " ".join(f"{i} {i + 1}" for i in range(len(bl) - 1)) if dim == 1 else " ".join(f"0 {i} {i + 1}" for i in range(1, len(bl) - 1))
+    extra += f'\n  <deformable>\n    <flex name="fl" dim="{dim}" body="{" ".join(bl)}" vertex="{vt}" element="{elem}"/>\n  </deformable>'
+    feats.append(f"flex-dim{dim}")
+  return wb, extra, feats
+
+
+def _dense_J(val, rownnz, rowadr, colind, nv):
+  J = np.zeros((len(rownnz), nv))
+  for t in range(len(rownnz)):
+    for k in range(int(rownnz[t])):
+      J[t, int(colind[rowadr[t] + k])] += val[rowadr[t] + k]
+  return J
 
 
 def _run(ctx, ncases, rec):
@@ -25,53 +165,92 @@ def _run(ctx, ncases, rec):
   from harness.gen import models
   rng = np.random.default_rng(ctx.seed * 1000 + 1)
   acc = Acc()
+  SITE = "smooth.kinematics/com_pos"
+
+  def reference(mjm, mjd, qpos, mpos, mquat):
+    mjd.qpos[:] = qpos
+    if mjm.nmocap:
+      mjd.mocap_pos[:] = mpos; mjd.mocap_quat[:] = mquat
+    mujoco.mj_kinematics(mjm, mjd)
+    mujoco.mj_comPos(mjm, mjd)
+    mujoco.mj_camlight(mjm, mjd)
+    if mjm.nflex:
+      mujoco.mj_flex(mjm, mjd)
+    if mjm.ntendon:
+      mujoco.mj_tendon(mjm, mjd)
 
   def scenario():
     for c in range(ncases):
       wb, sp = models.random_tree(rng, nbody=int(rng.integers(2, 9)), max_joints_per_body=3, geom_types=["sphere", "capsule", "box", "ellipsoid", "cylinder"], sites=True, static_geoms=int(rng.integers(0, 2)))
-      extra = ""
+      wb, extra, feats = _decorate(rng, c, wb, sp, acc)
       if rng.random() < 0.4:
         wb += '\n    <body name="mc" mocap="true" pos="0.3 0.2 1"><geom size=".03"/><site name="smc"/></body>'
       wb += '\n    <camera name="cam0" pos="1 1 1" mode="fixed"/><light name="l0" pos="0 0 3" dir="0 0 -1"/>'
       xml = models.wrap(wb, floor=False, extra=extra)
       try:
         mjm = mujoco.MjModel.from_xml_string(xml)
-      except ValueError:
+      except ValueError as e:
+        acc.hit("model-rejected-by-mujoco")
+        acc.sample({"rejected": str(e)[:200]}, limit=6)
         continue
       mjd = mujoco.MjData(mjm)
-      models.random_state(rng, mjm, mjd, qpos_scale=0.6, unnormalized=True)
-      if mjm.nmocap:
-        mjd.mocap_pos[:] = rng.normal(size=(mjm.nmocap, 3))
-        q = rng.normal(size=(mjm.nmocap, 4)); mjd.mocap_quat[:] = q * rng.uniform(0.3, 2.0)
       nworld = int(rng.integers(1, 3))
+      # one state per world (float32-representable, so that both codes see the same numbers)
+      states = []
+      for w in range(nworld):
+        models.random_state(rng, mjm, mjd, qpos_scale=0.6, unnormalized=True)
+        mp = rng.normal(size=(mjm.nmocap, 3))
+        mq = rng.normal(size=(mjm.nmocap, 4)) * rng.uniform(0.3, 2.0)
+        states.append(tuple(np.asarray(x, dtype=np.float32).astype(np.float64) for x in (mjd.qpos, mp, mq)))
+      reference(mjm, mjd, *states[0])
       m = mjw.put_model(mjm)
       d = mjw.put_data(mjm, mjd, nworld=nworld)
+      import warp as wp
+      d.qpos = wp.array(np.stack([s[0] for s in states]).astype(np.float32), dtype=float)
+      if mjm.nmocap:
+        d.mocap_pos = wp.array(np.stack([s[1] for s in states]).astype(np.float32), dtype=wp.vec3)
+        d.mocap_quat = wp.array(np.stack([s[2] for s in states]).astype(np.float32), dtype=wp.quat)
       mjw.kinematics(m, d)
       mjw.com_pos(m, d)
-      mujoco.mj_kinematics(mjm, mjd)
-      mujoco.mj_comPos(mjm, mjd)
+      mjw.camlight(m, d)
+      if mjm.nflex:
+        mjw.flex(m, d)
+      if mjm.ntendon:
+        mjw.tendon(m, d)
       acc.evals += 1
       acc.distinct.add((c, mjm.nbody, mjm.njnt))
       massless = (mjm.body_subtreemass < 1e-12).any()
-      for nm, a, b in (("xpos", d.xpos.numpy(), mjd.xpos), ("xquat", d.xquat.numpy(), mjd.xquat), ("xmat", d.xmat.numpy().reshape(nworld, -1, 9), mjd.xmat), ("xipos", d.xipos.numpy(), mjd.xipos),
-                       ("ximat", d.ximat.numpy().reshape(nworld, -1, 9), mjd.ximat), ("xanchor", d.xanchor.numpy(), mjd.xanchor), ("xaxis", d.xaxis.numpy(), mjd.xaxis),
-                       ("geom_xpos", d.geom_xpos.numpy(), mjd.geom_xpos), ("geom_xmat", d.geom_xmat.numpy().reshape(nworld, -1, 9), mjd.geom_xmat),
-                       ("site_xpos", d.site_xpos.numpy(), mjd.site_xpos), ("site_xmat", d.site_xmat.numpy().reshape(nworld, -1, 9), mjd.site_xmat),
-                       ("subtree_com", d.subtree_com.numpy(), mjd.subtree_com), ("cinert", d.cinert.numpy(), mjd.cinert), ("cdof", d.cdof.numpy(), mjd.cdof)):
-        if not b.size:
-          continue
-        for w in range(nworld):
-          aw = np.asarray(a[w]).reshape(b.shape)
+      got = {nm: getattr(d, nm).numpy() for nm in ("xpos", "xquat", "xmat", "xipos", "ximat", "xanchor", "xaxis", "geom_xpos", "geom_xmat", "site_xpos", "site_xmat", "subtree_com", "cinert", "cdof",
+                                                   "cam_xpos", "cam_xmat", "light_xpos", "light_xdir")}
+      if mjm.nflex:
+        got.update({nm: getattr(d, nm).numpy() for nm in ("flexvert_xpos", "flexedge_length")})
+      if mjm.ntendon:
+        got.update({nm: getattr(d, nm).numpy() for nm in ("ten_length", "ten_J", "ten_wrapnum", "ten_wrapadr", "wrap_obj", "wrap_xpos")})
+        jrn, jra, jci = m.ten_J_rownnz.numpy(), m.ten_J_rowadr.numpy(), m.ten_J_colind.numpy()
+      for w in range(nworld):
+        reference(mjm, mjd, *states[w])
+        for nm in ("xpos", "xquat", "xmat", "xipos", "ximat", "xanchor", "xaxis", "geom_xpos", "geom_xmat", "site_xpos", "site_xmat", "subtree_com", "cinert", "cdof",
+                   "cam_xpos", "cam_xmat", "light_xpos", "light_xdir", "flexvert_xpos", "flexedge_length"):
+          b = getattr(mjd, nm)
+          if not b.size or nm not in got:
+            continue
+          aw = np.asarray(got[nm][w]).reshape(b.shape)
           if nm == "xquat":
             # q and -q are the same rotation
             sgn = np.sign(np.sum(aw * b, axis=-1, keepdims=True)); sgn[sgn == 0] = 1
             aw = aw * sgn
           if not np.allclose(aw, b, rtol=5e-5, atol=5e-5 * (1 + np.abs(b).max())):
             trig = "massless-subtree-com" if (nm == "subtree_com" and massless) else "vs-mujoco-" + nm
-            acc.find(f"{nm} differs from mj_kinematics/mj_comPos (max |d| {np.abs(aw - b).max():.3g})", "smooth.kinematics/com_pos", trig, xml=xml, qpos=mjd.qpos.tolist())
+            acc.find(f"{nm} differs from mj_kinematics/mj_comPos/mj_camlight/mj_flex (max |d| {np.abs(aw - b).max():.3g}, world {w})", SITE, trig, xml=xml, qpos=states[w][0].tolist(),
+                     mocap_pos=states[w][1].tolist(), mocap_quat=states[w][2].tolist())
             break
+        if mjm.ntendon:
+          _tendons(acc, mujoco, mjm, mjd, got, w, states[w], (jrn, jra, jci), rng, xml, reference)
+      for f in feats:
+        acc.hit(f)
       acc.hit(f"njnt={min(mjm.njnt, 9)}")
-      acc.sample({"nbody": int(mjm.nbody), "njnt": int(mjm.njnt), "nmocap": int(mjm.nmocap), "nworld": nworld})
+      acc.hit(f"nworld={nworld}")
+      acc.sample({"nbody": int(mjm.nbody), "njnt": int(mjm.njnt), "nmocap": int(mjm.nmocap), "nworld": nworld, "ntendon": int(mjm.ntendon), "nwrap": int(mjm.nwrap), "features": feats})
 
   if rec:
     kc, _ = intercept(KERNELS, scenario, rng, max_tids=12, per_kernel=2)
@@ -81,8 +260,123 @@ def _run(ctx, ncases, rec):
   return acc, kc
 
 
-RULE = ("random forests (2-8 bodies, up to 3 joints per body, free/ball/hinge/slide, welded bodies, static geoms, sites, optional mocap body, camera, light) with unnormalised quaternions "
-        "(norm 0.2..3) in qpos and mocap_quat; kinematics()+com_pos() vs mujoco.mj_kinematics+mj_comPos on xpos/xquat/xmat/xipos/ximat/xanchor/xaxis/geom/site/subtree_com/cinert/cdof; "
+# Suspected deviation of the unchanged tree (reported to the maintainers of /verif, not yet recorded in known_findings.json): in float32
+# the Newton iteration of util_misc.wrap_inside sometimes leaves through one of its "SHOULD NOT OCCUR" exits (its absolute tolerance 1e-6
+# is at the round-off level of the function it solves) and returns the default point radius * normalize(end0 + end1) instead of the
+# solution: wrap point off by ~radius, length off by ~1e-3.  It is recognised by its exact signature (mujoco_warp's wrap point IS that
+# default point computed from mujoco_warp's own site/geom poses, MuJoCo's is not) and then only counted.  Set to a trigger id to
+# report it as a finding instead.
+INSIDE_WRAP_FALLBACK_TRIGGER = "inside-wrap-default-point"   # recorded: known_findings.json C01-wrap-inside-float32
+
+
+def _inside_fallback(mujoco, mjm, got, w, t, gx_t, wx_t):
+  """does tendon t contain a wrap geom for which mujoco_warp returned wrap_inside's default point while MuJoCo did not?
+  gx_t / wx_t: wrap points of tendon t (mujoco_warp / MuJoCo)."""
+  sx = np.asarray(got["site_xpos"][w], dtype=np.float64)
+  gp = np.asarray(got["geom_xpos"][w], dtype=np.float64)
+  gm = np.asarray(got["geom_xmat"][w], dtype=np.float64).reshape(-1, 3, 3)
+  a, n = int(mjm.tendon_adr[t]), int(mjm.tendon_num[t])
+  for j in range(a + 1, a + n - 1):
+    ty = int(mjm.wrap_type[j])
+    if ty not in (int(mujoco.mjtWrap.mjWRAP_SPHERE), int(mujoco.mjtWrap.mjWRAP_CYLINDER)) or int(round(mjm.wrap_prm[j])) < 0:
+      continue
+    g = int(mjm.wrap_objid[j])
+    r = float(mjm.geom_size[g, 0])
+    c, R = gp[g], gm[g]
+    e0, e1 = R.T @ (sx[int(mjm.wrap_objid[j - 1])] - c), R.T @ (sx[int(mjm.wrap_objid[j + 1])] - c)
+    nd = 2 if ty == int(mujoco.mjtWrap.mjWRAP_CYLINDER) else 3  # cylinder: the 2D problem lives in the geom's xy plane
+    mid = (e0 + e1)[:nd]
+    if np.linalg.norm(mid) < 1e-9:
+      continue
+    dflt = r * mid / np.linalg.norm(mid)
+    near = lambda pts: len(pts) and min(np.linalg.norm((R.T @ (p - c))[:nd] - dflt) for p in pts) < 2e-5 * (1 + r)
+    if near(gx_t) and not near(wx_t):
+      return True
+  return False
+
+
+def _tendons(acc, mujoco, mjm, mjd, got, w, state, jstruct, rng, xml, reference):
+  """tendon lengths (and moments, wrap points) of world w against mj_tendon.  Wrapping around a geom is only piecewise smooth (wrap /
+  no wrap, which tangent): MuJoCo itself is evaluated at a few states perturbed by 1e-5 and a tendon whose own reference length moves
+  by more than 1e-3 there is counted as ill-conditioned instead of compared; wrap points are compared only where MuJoCo's wrap
+  decision (wrap_obj sequence) is the same at all perturbed states."""
+  SITE = "smooth.tendon"
+  L = mjd.ten_length.copy()
+  J = _dense_J(mjd.ten_J.reshape(-1), mjm.ten_J_rownnz, mjm.ten_J_rowadr, mjm.ten_J_colind.reshape(-1), mjm.nv)
+  wnum, wadr, wobj, wx = mjd.ten_wrapnum.copy(), mjd.ten_wrapadr.copy(), mjd.wrap_obj.copy().reshape(-1), mjd.wrap_xpos.copy().reshape(-1, 3)
+  has_geom = np.array([np.isin(mjm.wrap_type[mjm.tendon_adr[t]: mjm.tendon_adr[t] + mjm.tendon_num[t]], [int(mujoco.mjtWrap.mjWRAP_SPHERE), int(mujoco.mjtWrap.mjWRAP_CYLINDER)]).any() for t in range(mjm.ntendon)])
+  sens = np.zeros(mjm.ntendon)
+  nused = int(wadr[-1] + wnum[-1])
+  stable_wrap = True
+  if has_geom.any():
+    for k in range(4):
+      reference(mjm, mjd, state[0] + 1e-5 * rng.normal(size=mjm.nq), state[1], state[2])
+      sens = np.maximum(sens, np.abs(mjd.ten_length - L))
+      if not (np.array_equal(mjd.ten_wrapnum, wnum) and np.array_equal(mjd.wrap_obj.reshape(-1)[:nused], wobj[:nused])):
+        stable_wrap = False
+  if (wobj[:nused] >= 0).any():
+    acc.hit("tendon-really-wraps-a-geom")
+  gL = np.asarray(got["ten_length"][w], dtype=np.float64)
+  gJ = _dense_J(np.asarray(got["ten_J"][w], dtype=np.float64), *jstruct, mjm.nv)
+  rep = dict(xml=xml, qpos=state[0].tolist(), mocap_pos=state[1].tolist(), mocap_quat=state[2].tolist())
+  gnum, gadr, gobj, gx = got["ten_wrapnum"][w], got["ten_wrapadr"][w], np.asarray(got["wrap_obj"][w]).reshape(-1), np.asarray(got["wrap_xpos"][w], dtype=np.float64).reshape(-1, 3)
+  skipped = set()
+
+  def fallback(t):
+    if _inside_fallback(mujoco, mjm, got, w, t, gx[int(gadr[t]): int(gadr[t]) + int(gnum[t])], wx[int(wadr[t]): int(wadr[t]) + int(wnum[t])]):
+      skipped.add(t)
+      if INSIDE_WRAP_FALLBACK_TRIGGER:
+        acc.find(f"wrap_inside returned its default point for tendon {t} (world {w}): ten_length {gL[t]:.6g}, mj_tendon {L[t]:.6g}", SITE, INSIDE_WRAP_FALLBACK_TRIGGER, tendon=t, **rep)
+      acc.hit("inside-wrap-default-point-in-float32 (recorded finding)")
+      return True
+    return False
+
+  for t in range(mjm.ntendon):
+    kind = "fixed" if mjm.wrap_type[mjm.tendon_adr[t]] == int(mujoco.mjtWrap.mjWRAP_JOINT) else ("spatial-geom" if has_geom[t] else "spatial-site")
+    if sens[t] > 1e-3:
+      acc.hit("tendon-skipped-discontinuous-reference")
+      skipped.add(t)
+      continue
+    acc.hit("tendon-compared-" + kind)
+    tolL = 5e-5 * (1 + abs(L[t])) + 20 * sens[t] * (kind == "spatial-geom")
+    if abs(gL[t] - L[t]) > tolL:
+      if kind == "spatial-geom" and fallback(t):
+        continue
+      acc.find(f"ten_length[{t}] ({kind}) = {gL[t]:.6g}, mj_tendon {L[t]:.6g} (world {w})", SITE, "vs-mujoco-ten_length", tendon=t, **rep)
+      return
+    # moments: skip for geoms where the wrap decision is unstable (the gradient jumps there)
+    if kind != "spatial-geom" or stable_wrap:
+      tolJ = (2e-4 if kind == "spatial-geom" else 5e-5) * (1 + np.abs(J[t]).max())
+      if np.abs(gJ[t] - J[t]).max() > tolJ:
+        if kind == "spatial-geom" and fallback(t):
+          continue
+        acc.find(f"ten_J[{t}] ({kind}) differs from mj_tendon (max |d| {np.abs(gJ[t] - J[t]).max():.3g}, world {w})", SITE, "vs-mujoco-ten_J", tendon=t, **rep)
+        return
+  if stable_wrap:
+    acc.hit("wrap-points-compared")
+    # one entry per wrap POINT (two per wrap element are reserved); MuJoCo leaves the entries behind the used ones as they were after
+    # the previous call: only the used prefix is compared
+    if not (np.array_equal(gnum, wnum) and np.array_equal(gadr, wadr) and np.array_equal(gobj[:nused], wobj[:nused])):
+      acc.find(f"ten_wrapnum/ten_wrapadr/wrap_obj differ from mj_tendon (world {w})", SITE, "vs-mujoco-wrap_obj", **rep)
+      return
+    for t in range(mjm.ntendon):
+      a, n = int(wadr[t]), int(wnum[t])
+      if t in skipped or not n:
+        continue
+      if not np.allclose(gx[a: a + n], wx[a: a + n], rtol=0, atol=2e-4 * (1 + np.abs(wx[a: a + n]).max())):
+        if has_geom[t] and fallback(t):
+          continue
+        acc.find(f"wrap_xpos of tendon {t} differs from mj_tendon (max |d| {np.abs(gx[a: a + n] - wx[a: a + n]).max():.3g}, world {w})", SITE, "vs-mujoco-wrap_xpos", tendon=t, **rep)
+        return
+  else:
+    acc.hit("wrap-points-skipped-unstable-decision")
+
+RULE = ("random forests (2-8 bodies, up to 3 joints per body, free/ball/hinge/slide, welded bodies, static geoms, sites, optional mocap body) with unnormalised quaternions (norm 0.2..3) in "
+        "qpos and mocap_quat, a DIFFERENT state in each world; decorated with: a body camera and a body light whose mode rotates over fixed/track/trackcom/targetbody/targetbodycom; 1-3 spatial "
+        "tendons (layout of the first rotates over: 3-4 branches separated by pulleys with pairwise different divisors / pulleys + sphere/cylinder wrap geoms / leading pulley + geom with side "
+        "site / random) over body and world sites, wrap geoms on bodies and in the world, side sites outside (45%) or inside (15%) the geom; a fixed tendon; every 3rd case a flex (dim 1 or 2) "
+        "over the bodies. kinematics()+com_pos()+camlight()+flex()+tendon() vs mujoco.mj_kinematics+mj_comPos+mj_camlight+mj_flex+mj_tendon on xpos/xquat/xmat/xipos/ximat/xanchor/xaxis/geom/"
+        "site/subtree_com/cinert/cdof/cam_xpos/cam_xmat/light_xpos/light_xdir/flexvert_xpos/flexedge_length/ten_length/ten_J/ten_wrapnum/ten_wrapadr/wrap_obj/wrap_xpos; "
         "distinct = (case, nbody, njnt)")
 
 
@@ -93,4 +387,4 @@ def correspondence(ctx):
 
 def search(ctx, breaks):
   acc, _ = _run(ctx, 150, False)
-  return search_result(acc, "mujoco.mj_kinematics / mj_comPos")
+  return search_result(acc, "mujoco.mj_kinematics / mj_comPos / mj_camlight / mj_flex / mj_tendon")
